@@ -35,10 +35,15 @@ func init() { register("C14", genC14) }
 // ---------------------------------------------------------------------------------------------
 // parameter sets
 
+// n is the number of coefficients of a polynomial on the protocol lines.  For the conjugate-invariant
+// ring Z[X+X^-1]/(X^2N+1) (N coefficients a_i standing for a_0 + Σ a_i (X^i + X^-i)) the lines carry the
+// element unfolded in the standard ring of degree 2N (c_i = a_i, c_{2N-i} = -a_i, c_N = 0), where
+// products are negacyclic and automorphisms act modulo NthRoot = 4N: the model is the same, with n = 2N.
 type c14Set struct {
 	name   string
 	params rlwe.Parameters
 	n      int
+	nRing  int
 	q, p   []uint64
 }
 
@@ -58,7 +63,14 @@ func c14Prime(bits int, twoN uint64, skip int) uint64 {
 }
 
 func c14NewSet(name string, logN int, qbits, pbits []int) c14Set {
+	return c14NewSetRing(name, logN, qbits, pbits, ring.Standard)
+}
+
+func c14NewSetRing(name string, logN int, qbits, pbits []int, rt ring.Type) c14Set {
 	twoN := uint64(2) << uint(logN)
+	if rt == ring.ConjugateInvariant {
+		twoN <<= 1 // NthRoot = 4N
+	}
 	used := map[uint64]bool{}
 	pick := func(bits int) uint64 {
 		for k := 0; ; k++ {
@@ -76,11 +88,15 @@ func c14NewSet(name string, logN int, qbits, pbits []int) c14Set {
 	for _, b := range pbits {
 		p = append(p, pick(b))
 	}
-	params, err := rlwe.NewParametersFromLiteral(rlwe.ParametersLiteral{LogN: logN, Q: q, P: p, NTTFlag: true})
+	params, err := rlwe.NewParametersFromLiteral(rlwe.ParametersLiteral{LogN: logN, Q: q, P: p, NTTFlag: true, RingType: rt})
 	if err != nil {
 		panic(fmt.Errorf("c14 params %s: %w", name, err))
 	}
-	return c14Set{name: name, params: params, n: 1 << logN, q: q, p: p}
+	n := 1 << logN
+	if rt == ring.ConjugateInvariant {
+		n <<= 1
+	}
+	return c14Set{name: name, params: params, n: n, nRing: 1 << logN, q: q, p: p}
 }
 
 var c14SetsCache []c14Set
@@ -92,6 +108,8 @@ func c14Sets() []c14Set {
 			c14NewSet("q3p1", 4, []int{55, 30, 40}, []int{56}),
 			c14NewSet("q2p1", 4, []int{30, 55}, []int{40}),
 			c14NewSet("q3p2", 5, []int{40, 30, 55}, []int{45, 46}),
+			c14NewSetRing("ciq3p1", 4, []int{40, 30, 55}, []int{56}, ring.ConjugateInvariant),
+			c14NewSetRing("ciq2", 4, []int{36, 50}, nil, ring.ConjugateInvariant),
 		}
 	}
 	return c14SetsCache
@@ -113,13 +131,36 @@ func (s c14Set) maxP() int { return s.params.MaxLevelP() }
 // ---------------------------------------------------------------------------------------------
 // canonical forms
 
+// c14Unfold maps the N coefficients of a conjugate-invariant element to the 2N coefficients of the same
+// element in the standard ring of degree 2N.
+func c14Unfold(row []uint64, q uint64) []uint64 {
+	n := len(row)
+	out := make([]uint64, 2*n)
+	out[0] = row[0]
+	for i := 1; i < n; i++ {
+		out[i] = row[i]
+		out[2*n-i] = (q - row[i]) % q
+	}
+	return out
+}
+
+func c14CanonRing(r *ring.Ring, p ring.Poly, ntt, mont bool) [][]uint64 {
+	rows := Canon(r, p, ntt, mont)
+	if r.Type() == ring.ConjugateInvariant {
+		for i := range rows {
+			rows[i] = c14Unfold(rows[i], r.SubRings[i].Modulus)
+		}
+	}
+	return rows
+}
+
 func c14QPRows(params rlwe.Parameters, p ringqp.Poly, ntt, mont bool) [][]uint64 {
 	var rows [][]uint64
 	if p.Q.Level() >= 0 {
-		rows = append(rows, Canon(params.RingQ().AtLevel(p.Q.Level()), p.Q, ntt, mont)...)
+		rows = append(rows, c14CanonRing(params.RingQ().AtLevel(p.Q.Level()), p.Q, ntt, mont)...)
 	}
 	if p.P.Level() >= 0 && params.RingP() != nil {
-		rows = append(rows, Canon(params.RingP().AtLevel(p.P.Level()), p.P, ntt, mont)...)
+		rows = append(rows, c14CanonRing(params.RingP().AtLevel(p.P.Level()), p.P, ntt, mont)...)
 	}
 	return rows
 }
@@ -135,6 +176,16 @@ func c14Signed(r *ring.Ring, p ring.Poly, ntt, mont bool) []int {
 		} else {
 			out[i] = int(x)
 		}
+	}
+	if r.Type() == ring.ConjugateInvariant {
+		n := len(out)
+		un := make([]int, 2*n)
+		un[0] = out[0]
+		for i := 1; i < n; i++ {
+			un[i] = out[i]
+			un[2*n-i] = -out[i]
+		}
+		return un
 	}
 	return out
 }
@@ -453,9 +504,64 @@ func genC14(c *Ctx) {
 				c14RKG(c, set, n, cfg)
 			}
 		}
+		// every Galois element of the list (in the conjugate-invariant ring the inverse modulo NthRoot = 4N
+		// of rotations by 1, 2, 3, 10 lies above 2N)
+		gcfg := c14Evk{set.maxQ(), set.maxP(), 0}
+		if set.maxP() < 0 {
+			gcfg = c14Evk{set.maxQ(), -1, 16}
+		}
+		for _, g := range c14AllGalEls(set) {
+			c14GALEl(c, set, 2, gcfg, g)
+		}
 		c14Mismatch(c, set)
 	}
 }
+
+// ---------------------------------------------------------------------------------------------
+// the key must not alias the share / CRP it was generated from
+
+func c14Clobber(c *Ctx, polys ...ring.Poly) {
+	for _, p := range polys {
+		for i := range p.Coeffs {
+			for j := range p.Coeffs[i] {
+				p.Coeffs[i][j] = c.rng.U64() >> 44
+			}
+		}
+	}
+}
+
+func c14ClobberQP(c *Ctx, polys ...ringqp.Poly) {
+	for _, p := range polys {
+		c14Clobber(c, p.Q, p.P)
+	}
+}
+
+func c14ClobberGadget(c *Ctx, g *rlwe.GadgetCiphertext) {
+	for i := range g.Value {
+		for j := range g.Value[i] {
+			c14ClobberQP(c, g.Value[i][j]...)
+		}
+	}
+}
+
+func c14ClobberCRP(c *Ctx, m [][]ringqp.Poly) {
+	for i := range m {
+		c14ClobberQP(c, m[i]...)
+	}
+}
+
+// c14SurvivesProbe: `before`/`after` are the key's limbs before and after the share and CRP objects were
+// overwritten (as happens when they are reused for the next key).
+func c14SurvivesProbe(c *Ctx, label, before, after string) {
+	detail := ""
+	if before != after {
+		detail = "key_limbs_changed_when_the_share_and_CRP_objects_were_overwritten"
+	}
+	c.Probe("key_survives_share_reuse", label, "C14-key-aliases-share", detail)
+}
+
+// c14ProbeTag is appended to the labels of collective_key_works (re-check after share reuse).
+var c14ProbeTag string
 
 // ---------------------------------------------------------------------------------------------
 // collective public key
@@ -525,6 +631,19 @@ func c14CPK(c *Ctx, set c14Set, n int) {
 	c.Count("cpk_key")
 
 	c14ProbePK(c, set, n, keys, pk)
+
+	pkRows := func() string {
+		return Mat(c14QPRows(params, pk.Value[0], true, true)) + "|" + Mat(c14QPRows(params, pk.Value[1], true, true))
+	}
+	before := pkRows()
+	c14ClobberQP(c, agg.Value, crp.Value)
+	for i := range shares {
+		protos[i].GenShare(keys.sk[i], crp, &shares[i])
+	}
+	c14SurvivesProbe(c, fmt.Sprintf("cpk set=%s N=%d", set.name, n), before, pkRows())
+	c14ProbeTag = " after_share_reuse"
+	c14ProbePK(c, set, n, keys, pk)
+	c14ProbeTag = ""
 }
 
 // ---------------------------------------------------------------------------------------------
@@ -645,14 +764,49 @@ func c14EVK(c *Ctx, set c14Set, n int, cfg c14Evk) {
 	c.Count("evk_key")
 
 	c14ProbeEVK(c, set, n, cfg, in, out, evk, res == "panic")
+
+	if res != "panic" && res != "err" {
+		c14ClobberGadget(c, &agg.GadgetCiphertext)
+		c14ClobberCRP(c, crp.Value)
+		for i := range shares {
+			_ = protos[i].GenShare(in.sk[i], out.sk[i], crp, &shares[i])
+		}
+		c14SurvivesProbe(c, fmt.Sprintf("evk set=%s %s N=%d", set.name, cfg, n), res, Mat(c14GRows(params, &evk.GadgetCiphertext, true, true)))
+		c14ProbeTag = " after_share_reuse"
+		c14ProbeEVK(c, set, n, cfg, in, out, evk, false)
+		c14ProbeTag = ""
+	}
 }
 
 // ---------------------------------------------------------------------------------------------
 // Galois key
 
-func c14GalEls(c *Ctx, set c14Set) []uint64 {
+// c14AllGalEls: rotations by 1, 2, 3, 10, -1 and N/4, the order-two element (conjugation), and 3.
+func c14AllGalEls(set c14Set) []uint64 {
 	p := set.params
-	els := []uint64{p.GaloisElement(1), p.GaloisElement(set.n / 4), p.GaloisElementOrderTwoOrthogonalSubgroup(), p.GaloisElement(-1), 3}
+	els := []uint64{p.GaloisElement(1), p.GaloisElement(2), p.GaloisElement(3), p.GaloisElement(10),
+		p.GaloisElement(set.nRing / 4)}
+	if p.RingType() == ring.Standard {
+		els = append(els, 3, p.GaloisElement(-1), p.GaloisElementOrderTwoOrthogonalSubgroup())
+	} else {
+		// the library refuses negative rotations and the order-two element in the conjugate-invariant ring, and its
+		// NTT automorphism index only exists for elements = 1 mod 4 (the powers of 5): raw elements 2N+1 and 4N-3
+		nth := uint64(4 * set.nRing)
+		els = append(els, nth/2+1, nth-3)
+	}
+	var out []uint64
+	seen := map[uint64]bool{1: true}
+	for _, e := range els {
+		if !seen[e] {
+			seen[e] = true
+			out = append(out, e)
+		}
+	}
+	return out
+}
+
+func c14GalEls(c *Ctx, set c14Set) []uint64 {
+	els := c14AllGalEls(set)
 	return []uint64{els[c.rng.Intn(len(els))]}
 }
 
@@ -661,12 +815,15 @@ func c14GalG(params rlwe.Parameters, s *multiparty.GaloisKeyGenShare) string {
 }
 
 func c14GAL(c *Ctx, set c14Set, n int, cfg c14Evk) {
+	c14GALEl(c, set, n, cfg, c14GalEls(c, set)[0])
+}
+
+func c14GALEl(c *Ctx, set c14Set, n int, cfg c14Evk, galEl uint64) {
 	params := set.params
 	lq, lp := cfg.lq, cfg.lp
 	keys := c14GenKeys(set, n)
 	_, crs := c14CRS(c)
 	ep := cfg.params()
-	galEl := c14GalEls(c, set)[0]
 
 	protos := make([]multiparty.GaloisKeyGenProtocol, n)
 	twins := make([]ring.Sampler, n)
@@ -761,6 +918,24 @@ func c14GAL(c *Ctx, set c14Set, n int, cfg c14Evk) {
 	c.Count("gal_key")
 
 	c14ProbeGAL(c, set, n, cfg, keys, galEl, gk, res == "panic")
+
+	if res != "panic" && res != "err" {
+		// the share and CRP objects are reused for the next Galois element
+		c14ClobberGadget(c, &agg.GadgetCiphertext)
+		c14ClobberCRP(c, crp.Value)
+		next := c14AllGalEls(set)[0]
+		if next == galEl {
+			next = c14AllGalEls(set)[1]
+		}
+		for i := range shares {
+			_ = protos[i].GenShare(keys.sk[i], next, crp, &shares[i])
+		}
+		c14SurvivesProbe(c, fmt.Sprintf("gal set=%s %s N=%d galEl=%d", set.name, cfg, n, galEl), res,
+			U(gk.GaloisElement)+" "+Mat(c14GRows(params, &gk.GadgetCiphertext, true, true)))
+		c14ProbeTag = " after_share_reuse"
+		c14ProbeGAL(c, set, n, cfg, keys, galEl, gk, false)
+		c14ProbeTag = ""
+	}
 }
 
 // ---------------------------------------------------------------------------------------------
@@ -878,4 +1053,13 @@ func c14RKG(c *Ctx, set c14Set, n int, cfg c14Evk) {
 	c.Count("rkg_key")
 
 	c14ProbeRLK(c, set, n, cfg, keys, rlk)
+
+	before := Mat(c14GRows(params, &rlk.GadgetCiphertext, true, true))
+	c14ClobberGadget(c, &agg1.GadgetCiphertext)
+	c14ClobberGadget(c, &agg2.GadgetCiphertext)
+	c14ClobberCRP(c, crp.Value)
+	c14SurvivesProbe(c, fmt.Sprintf("rlk set=%s %s N=%d", set.name, cfg, n), before, Mat(c14GRows(params, &rlk.GadgetCiphertext, true, true)))
+	c14ProbeTag = " after_share_reuse"
+	c14ProbeRLK(c, set, n, cfg, keys, rlk)
+	c14ProbeTag = ""
 }
